@@ -61,6 +61,7 @@ def metric(draw):
         bs = sorted(draw(st.sets(st.integers(0, 500), min_size=2, max_size=8)))
         m['boundaries'] = [b if draw(st.booleans()) else float(b) + 0.5 for b in bs]
         m['boundaries'] = sorted(set(m['boundaries']))
+        m['open_ended'] = draw(st.sampled_from([None, None, None, 'inf', '-inf', 'both']))    # an explicit infinite outer boundary, which the metric declaration and the SDK accept
     if kind == 'histogram_auto':
         m['num_buckets'] = draw(st.integers(2, 12))
     return m
@@ -229,7 +230,8 @@ def run_exporter(case):
             if m['kind'] == 'histogram':
                 if len(m['boundaries']) < 2:
                     continue
-                kw['boundaries'] = m['boundaries']
+                oe = m.get('open_ended')
+                kw['boundaries'] = ([float('-inf')] if oe in ('-inf', 'both') else []) + list(m['boundaries']) + ([float('inf')] if oe in ('inf', 'both') else [])
             if m['kind'] == 'histogram_auto':
                 kw['num_buckets'] = m['num_buckets']
             specs.append(M['MetricSpec'](name=m['name'], instrument='counter' if m['kind'] == 'counter' else 'histogram',
